@@ -645,13 +645,20 @@ func runOne(ctx context.Context, sp solverSpec, file string, timeoutS int) Solve
 // Solve races the portfolio; the first definitive (sat/unsat) answer wins. With
 // all=true every solver is run to completion and the per-solver answers are kept.
 func Solve(query string, dir string, name string, timeoutS int, all bool) SolverResult {
+	if !all {
+		// fast path: one solver with a short budget; anything but unsat goes to the full race
+		r := solveWith(solverSpecs[:1], query, dir, name, 2, false, false)
+		if r.Status == "unsat" {
+			return r
+		}
+	}
 	return solveWith(solverSpecs, query, dir, name, timeoutS, all, false)
 }
 
 // SolveCover answers a vacuity guard: only "unsat" matters, so the first answer
 // of any kind wins and the budget is small.
 func SolveCover(query string, dir string, name string) SolverResult {
-	return solveWith(solverSpecs[:2], query, dir, name, 3, false, true)
+	return solveWith(solverSpecs, query, dir, name, 3, false, true)
 }
 
 func solveWith(specs []solverSpec, query string, dir string, name string, timeoutS int, all bool, anyAnswer bool) SolverResult {
